@@ -625,6 +625,48 @@ def resolve_table(r, side):
     return table
 
 
+def implied_atoms(cond, truth):
+    """atoms whose truth value follows from `cond == truth`: conjuncts of a true `and`, disjuncts of a false `or`"""
+    if isinstance(cond, bool) or not isinstance(cond, tuple) or not cond:
+        return []
+    if cond[0] == "not":
+        return implied_atoms(cond[1], not truth)
+    if cond[0] == "and" and truth:
+        return [x for c in cond[1] for x in implied_atoms(c, True)]
+    if cond[0] == "or" and not truth:
+        return [x for c in cond[1] for x in implied_atoms(c, False)]
+    if cond[0] in ("and", "or"):
+        return []
+    return [(cond, truth)]
+
+
+def lin_bound(cond, taken):
+    """upper bound on d = position(at entry) - target implied by a path fact `lin op const`, or None.
+    lin = sign * (position_n + k) - sign * target  =  sign * (d + n + k)"""
+    if not (isinstance(cond, tuple) and cond and cond[0] == "pred" and isinstance(cond[1], tuple) and len(cond[1]) == 3):
+        return None
+    op, a, b = cond[1]
+    if not (isinstance(a, tuple) and a and a[0] == "lin" and isinstance(a[1], tuple) and a[1][0] == "pos"
+            and isinstance(b, tuple) and b and b[0] == "c"):
+        return None
+    if not taken:
+        op = {"lt": "ge", "le": "gt", "gt": "le", "ge": "lt", "eq": "ne", "ne": "eq"}[op]
+    n, k, sign, c = a[1][1], a[2], (a[4] if len(a) > 4 else 1), b[1]
+    # sign*(d + n + k) op c
+    if sign == 1:
+        if op == "lt":
+            return c - 1 - n - k
+        if op == "le":
+            return c - n - k
+    else:
+        # -(d+n+k) op c  <=>  d+n+k op' -c
+        if op == "gt":
+            return -c - 1 - n - k
+        if op == "ge":
+            return -c - n - k
+    return None
+
+
 def run_r2(chk, sides):
     r = chk.rule("C07.R2", "backward-jump constants equal the bytes the branch emits; forward placeholders have the width of "
                            "their JumpDistance; resolve_jumps pairs kind/+k/width; a RIP-relative disp32 ends the instruction")
@@ -672,6 +714,34 @@ def run_r2(chk, sides):
                                 r.violation(key, "the branch adds %d to the current position but emits %d byte(s) from there to "
                                                  "the end of the instruction (%s): every backward jump on this path lands %+d "
                                                  "byte(s) off its label" % (k, total - n, r_path(p), (total - n) - k), fn.where)
+                            sign = v[4] if len(v) > 4 else 1
+                            if len(v) > 4 and sign != -1:
+                                r.violation(key + ":sign", "the emitted displacement grows with the current position: a "
+                                            "backward displacement is target - (position + length)", fn.where)
+                            # the displacement must fit the field on this path: d = position(at entry) - target >= 0,
+                            # emitted = -(d + n + k); the path's comparisons on position-derived values bound d
+                            if e[1] == 1:
+                                dmax = None
+                                # assertions that are compiled into release builds hold on every path that goes on
+                                held = [(a[1], True) for a in evs[:idx] if a[0] == "assert" and not (len(a) > 2 and a[2])]
+                                for (cond, taken) in list(p.facts) + held:
+                                    for (atom, truth) in implied_atoms(cond, taken):
+                                        b = lin_bound(atom, truth)
+                                        if b is not None:
+                                            dmax = b if dmax is None else min(dmax, b)
+                                need = 128 - n - k
+                                r.instance("%s:%s:backward:%d:range" % (side.tag, fn.name, e[1]),
+                                           sample={"method": fn.path, "d_max_on_path": dmax, "d_max_encodable": need})
+                                if dmax is None:
+                                    r.violation(key + ":range", "the 8-bit backward displacement is emitted without a "
+                                                "range test on this path: a label more than %d bytes back is silently "
+                                                "truncated" % need, fn.where)
+                                elif dmax > need:
+                                    r.violation(key + ":range", "the short form is taken for distances up to %d byte(s) "
+                                                "from the label, but its displacement -(distance + %d) only fits 8 bits up "
+                                                "to %d: a backward jump of exactly %d byte(s) is encoded as %+d and lands "
+                                                "%d bytes past its label" % (dmax, n + k, need, dmax, 256 - (dmax + n + k),
+                                                                             256), fn.where)
                         seen += e[1]
                     elif e[0] == "jumprec":
                         label_users.add(fn.name)
